@@ -544,7 +544,7 @@ func init() {
 			"floats: boundary pool pairwise + random bit patterns for Float/Float64/Float32 against Go arithmetic bit-for-bit; Elk level: literal / typed / method-call probe programs; distinct = (type, operator[, count type]) cells",
 		NumCases: func(tier string) int {
 			if tier == "thorough" {
-				return 512 + 2_000_000 + 3000
+				return 512 + 500_000 + 3000
 			}
 			return 512 + 60_000 + 150
 		},
